@@ -79,13 +79,13 @@ func c01Gen(r *core.Rand, tier string) any {
 	// SQLite's wall clock starts shortly before a minute/day/month/year boundary
 	switch r.Intn(4) {
 	case 0:
-		sc.ClockMs = int64(r.Intn(1200))*msDay + msDay - int64(r.Range(2, 90))*1000 // before midnight
+		sc.ClockMs = int64(r.Intn(1200))*c14MsDay + c14MsDay - int64(r.Range(2, 90))*1000 // before midnight
 	case 1:
-		sc.ClockMs = 366*msDay - int64(r.Range(2, 90))*1000 // before new year 2001
+		sc.ClockMs = 366*c14MsDay - int64(r.Range(2, 90))*1000 // before new year 2001
 	case 2:
-		sc.ClockMs = 59*msDay - int64(r.Range(2, 90))*1000 // before leap day 2000
+		sc.ClockMs = 59*c14MsDay - int64(r.Range(2, 90))*1000 // before leap day 2000
 	default:
-		sc.ClockMs = int64(r.Intn(1200))*msDay + int64(r.Intn(int(msDay)))
+		sc.ClockMs = int64(r.Intn(1200))*c14MsDay + int64(r.Intn(int(c14MsDay)))
 	}
 	g := sqlgen.New(r.Fork(1), sc.Opts)
 	nreq := r.Range(18, 36)
@@ -157,7 +157,7 @@ func c01Gen(r *core.Rand, tier string) any {
 	return sc
 }
 
-func storeStat(name string) int64 {
+func c01StoreStat(name string) int64 {
 	m, ok := expvar.Get("store").(*expvar.Map)
 	if !ok {
 		return 0
@@ -168,8 +168,8 @@ func storeStat(name string) int64 {
 	return 0
 }
 
-// httpJSON posts stmts (HTTP API encoding) to a node and returns status and body.
-func httpJSON(n *node.Node, target string, stmts []sqlgen.Stmt) (int, string) {
+// c01HTTPJSON posts stmts (HTTP API encoding) to a node and returns status and body.
+func c01HTTPJSON(n *node.Node, target string, stmts []sqlgen.Stmt) (int, string) {
 	arr := make([]any, 0, len(stmts))
 	for i := range stmts {
 		arr = append(arr, stmts[i].JSON())
@@ -182,14 +182,14 @@ func httpJSON(n *node.Node, target string, stmts []sqlgen.Stmt) (int, string) {
 	return w.Code, w.Body.String()
 }
 
-type sqlCluster struct {
+type c01Cluster struct {
 	c   *core.Ctx
 	s   *sim.Sim
 	iso int // isolated node (0 = none)
 }
 
 // up lists nodes that are up and not isolated.
-func (k *sqlCluster) reachable() []*node.Node {
+func (k *c01Cluster) reachable() []*node.Node {
 	var out []*node.Node
 	for _, n := range k.s.Nodes[1:] {
 		if n.Up && n.Idx != k.iso {
@@ -201,7 +201,7 @@ func (k *sqlCluster) reachable() []*node.Node {
 
 // compareAtEqualIndex dumps every up node and compares the dumps of nodes that
 // have applied the same raft index. Returns false after recording a violation.
-func (k *sqlCluster) compareAtEqualIndex(class, when string) bool {
+func (k *c01Cluster) compareAtEqualIndex(class, when string) bool {
 	groups := map[uint64][]*node.Node{}
 	var idxs []uint64
 	for _, n := range k.s.Nodes[1:] {
@@ -241,7 +241,7 @@ func (k *sqlCluster) compareAtEqualIndex(class, when string) bool {
 	return true
 }
 
-func featsOf(ops []c01Op) string {
+func c01FeatsOf(ops []c01Op) string {
 	set := map[string]bool{}
 	for _, op := range ops {
 		for _, st := range op.Stmts {
@@ -285,8 +285,8 @@ func c01Run(c *core.Ctx, raw json.RawMessage) {
 		return
 	}
 	s.ClockOffset = time.Duration(sc.ClockMs) * time.Millisecond
-	k := &sqlCluster{c: c, s: s}
-	restores0, snaps0 := storeStat("num_restores"), storeStat("num_snapshots")
+	k := &c01Cluster{c: c, s: s}
+	restores0, snaps0 := c01StoreStat("num_restores"), c01StoreStat("num_snapshots")
 	// count snapshot restores by kind: on a running node = InstallSnapshot from the
 	// leader, on a starting node = restore from its own snapshot store
 	installs, startRestores, applies := 0, 0, 0
@@ -321,7 +321,7 @@ func c01Run(c *core.Ctx, raw json.RawMessage) {
 		c.Discard("no-leader-after-boot")
 		return
 	}
-	if !s.Do("setup", 60*time.Second, func() { code, body = httpJSON(ldr, "/db/execute?timeout=20s", setup) }) || code != 200 || strings.Contains(body, `"error"`) {
+	if !s.Do("setup", 60*time.Second, func() { code, body = c01HTTPJSON(ldr, "/db/execute?timeout=20s", setup) }) || code != 200 || strings.Contains(body, `"error"`) {
 		c.Discard(fmt.Sprintf("setup-failed: %d %.200s", code, body))
 		return
 	}
@@ -357,7 +357,7 @@ func c01Run(c *core.Ctx, raw json.RawMessage) {
 			}
 			var code int
 			var body string
-			ok := s.Do(fmt.Sprintf("req %d %s n%d x%d", oi, op.Ep, tgt.Idx, len(op.Stmts)), 40*time.Second, func() { code, body = httpJSON(tgt, target, op.Stmts) })
+			ok := s.Do(fmt.Sprintf("req %d %s n%d x%d", oi, op.Ep, tgt.Idx, len(op.Stmts)), 40*time.Second, func() { code, body = c01HTTPJSON(tgt, target, op.Stmts) })
 			c.Log.Add("%d req %d -> %d ok=%v", s.StepN, oi, code, ok)
 			switch {
 			case !ok:
@@ -451,7 +451,7 @@ func c01Run(c *core.Ctx, raw json.RawMessage) {
 			s.Step()
 		}
 		if op.K != "run" && op.K != "jump" && !k.compareAtEqualIndex(class, fmt.Sprintf("after op %d (%s)", oi, op.K)) {
-			c.Log.Add("feats=[%s]", featsOf(sc.Ops))
+			c.Log.Add("feats=[%s]", c01FeatsOf(sc.Ops))
 			return
 		}
 	}
@@ -488,11 +488,11 @@ func c01Run(c *core.Ctx, raw json.RawMessage) {
 		}
 		return true
 	}, 180*time.Second)
-	c.ProbeN("restores_total", int(storeStat("num_restores")-restores0))
+	c.ProbeN("restores_total", int(c01StoreStat("num_restores")-restores0))
 	c.ProbeN("install_snapshot_on_running_node", installs)
 	c.ProbeN("restore_from_own_snapshot_at_start", startRestores)
 	c.ProbeN("log_entries_applied", applies)
-	c.ProbeN("snapshots_taken", int(storeStat("num_snapshots")-snaps0))
+	c.ProbeN("snapshots_taken", int(c01StoreStat("num_snapshots")-snaps0))
 	if !settled {
 		c.Discard("not-settled: nodes did not reach a common applied index within 180 s after heal: " + s.StateDigest())
 		return
@@ -505,7 +505,7 @@ func c01Run(c *core.Ctx, raw json.RawMessage) {
 	}
 	c.ProbeN("nodes_compared_at_end", nUp)
 	if !k.compareAtEqualIndex(class, "after heal and settle") {
-		c.Log.Add("feats=[%s]", featsOf(sc.Ops))
+		c.Log.Add("feats=[%s]", c01FeatsOf(sc.Ops))
 		return
 	}
 	c.Res.Trivial = c.Res.Probes["nd_stmts_acked"] == 0
